@@ -331,6 +331,23 @@ def _row_view(ctx) -> None:
     from ..symx import Interp as SInterp
     from ..symx import const, elements, show, subterms
     prog = ctx.prog
+    # the shape of a row / table is (rows, columns): further dimensions come from a cell only when that cell IS a vector - decided
+    # by its type, not by `hasattr(cell, 'shape')` (a cell of any other class may have a shape attribute of its own)
+    for q_ in ("table.Row.shape", "table.Table.shape"):
+        g_ = prog.functions.get(q_)
+        if g_ is None:
+            continue
+        gi_ = SInterp(prog, g_)
+        duck = []
+        for e_ in gi_.events:
+            for c_, _p in e_.conds:
+                for x_ in subterms(c_):
+                    if x_[0] == "call" and x_[1] in (("name", "hasattr"), ("name", "getattr")) and x_[2] and x_[2][0][0] in ("sub", "elem"):
+                        duck.append(e_)
+        ctx.ob("d.row-view", g_, "dimensions-by-type", not duck, "no dimension of the shape depends on hasattr / getattr of a cell",
+               (duck[0].node if duck else g_.node),
+               message=f"{q_} asks a CELL for a `shape` by attribute: a cell object that happens to have one (a frozen dataclass Tile(shape=(2, 3))) "
+                       f"changes the table's shape to (rows, columns, 2, 3) - every t[i, name] and repr then take the wrong branch")
     f = prog.func("table.Row.__init__")
     it = SInterp(prog, f)
     S, T = ("param", f.params[0]), ("param", f.params[1])
@@ -494,8 +511,11 @@ def _structural(ctx) -> None:
     KIND_NAMES = {
         "str": ({"str", "bytes", "Sized", "Iterable", "Sequence", "Collection", "Container", "Reversible", "Hashable"},
                 {"Vector", "Table", "Row", "list", "tuple", "dict", "Mapping", "set", "range", "int", "float", "Iterator", "bytearray"}),
-        "Mapping": ({"Mapping", "dict", "Sized", "Iterable", "Collection", "Container"},
-                    {"Vector", "Table", "Row", "list", "tuple", "str", "bytes", "bytearray", "set", "range", "int", "float", "Iterator", "Sequence"}),
+        "Iterator": ({"Iterator", "Iterable", "Generator"},
+                     {"Vector", "Table", "Row", "list", "tuple", "str", "bytes", "bytearray", "complex", "Enum", "set", "range", "int", "float", "Mapping", "dict",
+                      "Sized", "Sequence", "Collection"}),
+        "Mapping": ({"Mapping", "Sized", "Iterable", "Collection", "Container"},          # (not "dict": a mapping need not be one)
+                    {"Vector", "Table", "Row", "list", "tuple", "str", "bytes", "bytearray", "complex", "Enum", "set", "range", "int", "float", "Iterator", "Sequence"}),
     }
 
     def kind_truth(c, O, kind):
@@ -526,6 +546,60 @@ def _structural(ctx) -> None:
                message=f"{q}: a result is reachable for a {' / '.join(sorted({k for k, _ in reach}))} operand (line "
                        f"{getattr(reach[0][1].node, 'lineno', 0) if reach else 0}): t << {{'b': 'B', 'a': 'A'}} appends the row ('b', 'a') - the "
                        f"mapping's KEYS - and t << 'pq' spreads the characters over the columns")
+    # table << generator: a one-shot iterator of items has no len() - it is materialised before its length is compared with the column
+    # count (as generator << table does); evaluated for an Iterator operand: no len(other) of the raw operand is reachable
+    for q in ("table.Table.__lshift__",):
+        g = prog.functions.get(q)
+        if g is None:
+            continue
+        gi = interp_of(prog, g)
+        O = ("param", g.params[1])
+
+        def res_it(t):
+            while t[0] == "ifexp":
+                r = kind_truth(t[1], O, "Iterator")
+                if r is None:
+                    return None
+                t = t[2] if r else t[3]
+            return t
+        raw_len = []
+        for e in gi.events:
+            if any(kind_truth(t, O, "Iterator") is (not pol) for t, pol in flatten_conds(e.conds)):
+                continue
+            for t in [e.term, e.value] + [c for c, _ in e.conds]:
+                if t is None:
+                    continue
+                for x in subterms(t):
+                    if x[0] == "call" and x[1] == ("name", "len") and len(x[2]) == 1 and res_it(x[2][0]) == O:
+                        raw_len.append(e)
+        ctx.ob("e.structural-ops", g, "iterator-row", not raw_len, "no len() of the raw operand is reached when it is a one-shot iterator",
+               (raw_len[0].node if raw_len else g.node),
+               message=f"{q}: len(other) is taken of an operand that may be a generator (line {getattr(raw_len[0].node, 'lineno', 0) if raw_len else 0}): "
+                       f"t << (x for x in row) raises a bare TypeError while generator << table works")
+    # >> with a mapping {name: values}: the named columns are added (iterating the mapping would store its KEYS as one column) - every
+    # result reachable for a Mapping operand lies behind a test that recognises a mapping (a test for dict alone misses the others)
+    for q in ("vector.Vector.__rshift__", "vector.Vector.__rrshift__", "table.Table.__rshift__"):
+        g = prog.functions.get(q)
+        if g is None:
+            continue
+        gi = interp_of(prog, g)
+        O = ("param", g.params[1])
+        is_map_test = lambda c: c[0] == "call" and c[1] == ("name", "isinstance") and len(c[2]) == 2 and c[2][0] == O \
+            and any(y == ("name", "Mapping") for y in subterms(c[2][1]))
+        unrecognised = []
+        for e in gi.events:
+            if e.kind != "return" or e.depth != 0:
+                continue
+            fc = flatten_conds(e.conds)
+            if any(kind_truth(t, O, "Mapping") is (not pol) for t, pol in fc):
+                continue
+            if not any(pol and is_map_test(t) for t, pol in fc):
+                unrecognised.append(e)
+        ctx.ob("e.structural-ops", g, "mapping-columns", not unrecognised, "every result reachable for a mapping operand is the named-columns form",
+               (unrecognised[0].node if unrecognised else g.node),
+               message=f"{q}: a result (line {getattr(unrecognised[0].node, 'lineno', 0) if unrecognised else 0}) is reachable for a mapping operand "
+                       f"without the mapping being recognised: vector >> {{'p': [..]}} / table >> MappingProxyType(..) store the KEYS as one "
+                       f"column and drop the values")
     # Vector.__lshift__ (the per-column append): a string is ONE cell, never a sequence of cells
     vl = prog.func("vector.Vector.__lshift__")
     it = interp_of(prog, vl)
@@ -568,7 +642,7 @@ def _structural(ctx) -> None:
     # a fast path `if isinstance(other, Sized) and len(other) == 0: return <self's cells>` is reachable for '' and drops the cell
     STR_TRUE = {"str", "bytes", "Sized", "Iterable", "Sequence", "Collection", "Container", "Reversible", "Hashable", "object"}
     STR_FALSE = {"Vector", "Table", "Row", "list", "tuple", "dict", "Mapping", "set", "frozenset", "range", "int", "float", "bool", "complex",
-                 "Iterator", "Generator", "slice", "date", "datetime", "bytearray", "MutableSequence"}
+                 "Iterator", "Generator", "slice", "date", "datetime", "bytearray", "complex", "Enum", "MutableSequence"}
 
     def tv_str(c):
         from ..tv import tv as _tv
@@ -757,12 +831,20 @@ def _structural(ctx) -> None:
 
 _T, _V = "table", "vector"
 MUTANTS = [
+    dict(id="rshift-only-dicts-are-mappings", module="table", old="		if isinstance(other, Mapping):\n			# Convert dict to named Vectors",
+         new="		if isinstance(other, dict):\n			# Convert dict to named Vectors", rules=["e.structural-ops"], desc="reverts fix 0894df3 (table)"),
+    dict(id="vector-rshift-mapping-keys", module="vector", old="		if isinstance(other, Mapping):\n			# {name: values, ...}: named columns after this one",
+         new="		if False:\n			# {name: values, ...}: named columns after this one", rules=["e.structural-ops"], desc="reverts fix 0894df3 (vector)"),
+    dict(id="table-lshift-generator-len", module="table", old="		if isinstance(other, Iterator):\n			# (a generator of items has no len()",
+         new="		if False:\n			# (a generator of items has no len()", rules=["e.structural-ops"], desc="reverts fix 7b014f0"),
+    dict(id="row-shape-by-attribute", module="table", old="		if isinstance(first_val, Vector):\n			return (my_len,) + first_val.shape",
+         new="		if hasattr(first_val, 'shape'):\n			return (my_len,) + first_val.shape", rules=["d.row-view"], desc="reverts fix d1a38eb"),
     dict(id="lshift-row-may-be-a-mapping", module="table",
-         old="		if not isinstance(other, Iterable) or isinstance(other, (str, bytes, bytearray, Mapping)):\n			# (a string is one cell",
+         old="		if not isinstance(other, Iterable) or isinstance(other, (str, bytes, bytearray, int, float, complex, Enum, Mapping)):\n			# (a string is one cell",
          new="		if False:\n			# (a string is one cell", rules=["e.structural-ops"], desc="reverts fix 7ae68a8"),
     dict(id="rlshift-row-may-be-a-mapping", module="table",
-         old="		if not isinstance(other, Iterable) or isinstance(other, (str, bytes, bytearray, Mapping)):\n			raise SerifTypeError(\"Cannot prepend",
-         new="		if not isinstance(other, Iterable) or isinstance(other, (str, bytes, bytearray)):\n			raise SerifTypeError(\"Cannot prepend",
+         old="		if not isinstance(other, Iterable) or isinstance(other, (str, bytes, bytearray, int, float, complex, Enum, Mapping)):\n			raise SerifTypeError(\"Cannot prepend",
+         new="		if not isinstance(other, Iterable) or isinstance(other, (str, bytes, bytearray, int, float, complex, Enum)):\n			raise SerifTypeError(\"Cannot prepend",
          rules=["e.structural-ops"], desc="reverts fix 7ae68a8 for dict << table"),
     dict(id="lshift-table-operand-concatenated", module="vector", old="		if isinstance(other, Vector) and other.ndims() == 2 and self.ndims() != 2:",
          new="		if False:", rules=["e.structural-ops"], desc="reverts fix 41fe18d"),
